@@ -437,10 +437,11 @@ func VerifC01_Zhemm() { verifC01zxxmm("Zhemm", verifC01kHerm) }
 func VerifC01_Zsymm() { verifC01zxxmm("Zsymm", verifC01kSym) }
 
 // verifC01zr2k: rank-k / rank-2k updates of the referenced triangle of C.
-//   which 0: Zsyrk  C = alpha*op(A)*op(A)T + beta*C                      (trans N/T)
-//   which 1: Zsyr2k C = alpha*op(A)*op(B)T + alpha*op(B)*op(A)T + beta*C (trans N/T)
-//   which 2: Zher2k C = alpha*op(A)*op(B)H + conj(alpha)*op(B)*op(A)H + beta*C (trans N/C, beta real,
-//            diagonal of C real; BLAS quick return (alpha==0||k==0)&&beta==1 leaves C untouched)
+//
+//	which 0: Zsyrk  C = alpha*op(A)*op(A)T + beta*C                      (trans N/T)
+//	which 1: Zsyr2k C = alpha*op(A)*op(B)T + alpha*op(B)*op(A)T + beta*C (trans N/T)
+//	which 2: Zher2k C = alpha*op(A)*op(B)H + conj(alpha)*op(B)*op(A)H + beta*C (trans N/C, beta real,
+//	         diagonal of C real; BLAS quick return (alpha==0||k==0)&&beta==1 leaves C untouched)
 func verifC01zr2k(name string, which int) {
 	maxN := verifParam("zn", 2)
 	ul := verifC01uplo("uplo")
